@@ -80,6 +80,17 @@ def oracle_c02(cid, impl, m):
     return True
 
 
+def oracle_c02_transports(cid, impl, m):
+    """The per-request depth as the transports hand it to the engine (stream hcheck: REST max-depth absent / 0 / negative / k,
+    gRPC max_depth in both request forms, batch; global limits 3, 5, 7, 8; data that needs up to 7 levels): every transport
+    answers what the engine answers for (request depth, global limit) - i.e. values <= 0, absent or above the global limit
+    mean the global limit, others lower it."""
+    v = oracle_c08(cid, impl, m)
+    if v is None or v is True:
+        return v
+    return ("c02-transport-depth", "a transport does not hand the request depth to the engine as the property states: " + v[1])
+
+
 def _c03_one(res, m):
     memb, _, err = res.partition("/")
     if err != "none" and memb == "isMember":
@@ -1023,8 +1034,10 @@ PROPS = {
     "C02": {
         "lean_module": "Keto.Props.C02",
         "theorems": ["Keto.C02_effDepth_bounds", "Keto.C02_clamp", "Keto.C02_clamp_explicit", "Keto.C02_fail_closed_pos"],
-        "streams": [{"name": "engine-c02", "n": {"quick": 40, "thorough": 500}, "oracle": oracle_c02, "thorough_seeds": 3}],
-        "rule": ENGINE_RULE + "; every stored state is checked over a grid of (request depth, global depth, width)",
+        "streams": [{"name": "engine-c02", "n": {"quick": 40, "thorough": 500}, "oracle": oracle_c02, "thorough_seeds": 3},
+                    {"name": "hcheck", "n": {"quick": 300, "thorough": 3000}, "oracle": oracle_c02_transports, "thorough_seeds": 2}],
+        "rule": ENGINE_RULE + "; every stored state is checked over a grid of (request depth, global depth, width); stream hcheck (see C08): "
+                "the request depth through every transport under global limits 3, 5, 7, 8",
         "partial": "",
         "assumptions": [],
     },
